@@ -13,6 +13,7 @@ known findings, evidence.  Property modules plug in through a small interface:
 from __future__ import annotations
 
 import faulthandler
+import gc
 import hashlib
 import json
 import os
@@ -165,6 +166,11 @@ def _worker(mod, tier, base, w, nw, n, wfd, per_run_timeout, tok_r):
                 finally:
                     faulthandler.cancel_dump_traceback_later()
                 agg.add(i, seed, plan, res)
+                del res, plan
+            # the collector is off while plans run (bootstrap): drop the
+            # cyclic garbage (exceptions with tracebacks, mostly) between
+            # chunks, or a long batch grows without bound
+            gc.collect()
         out.write(json.dumps({"done": True, "agg": agg.dump()}) + "\n")
         out.flush()
     finally:
